@@ -40,7 +40,7 @@ func c19URL(keyword string) (u, host, id string) {
 		scheme = []string{"https://", "http://", "//"}[vx.Choose("scheme", 3)]
 		pre = vx.NondetStringIn("hostprefix", vx.Param("prefix", 2), "w.-")
 		base = c19Hosts[vx.Choose("host", len(c19Hosts))]
-		user = []string{"", "youtube.com@", "www.twitter.com:x@", "player.vimeo.com@"}[vx.Choose("user", 4)]
+		user = []string{"", "youtube.com@", "www.twitter.com:x@", "player.vimeo.com@", "www.youtube.com&v=abc@", "player.vimeo.com&video=1:p@"}[vx.Choose("user", 6)]
 		if vx.Choose("short", 2) == 1 {
 			s1 = "" // path "//abc": one identifier segment only
 		}
